@@ -2,7 +2,7 @@
 //! is executed against the real formatter cache under the controlled scheduler and judged against the
 //! stateless reference.
 use crate::fixture::{self, Spec, Val, COUNTS, LOCALES};
-use crate::fixture_table::{self, KEYS, SITES};
+use crate::fixture_table::{self, DUPS, KEYS, SITES};
 use crate::i18n::Locale;
 use crate::sched::{self, At, Policy};
 use serde_json::{json, Value};
@@ -32,6 +32,9 @@ pub enum Route {
     CtxPlural,
     /// td_string! on a number / currency key with a typed integer / f32 literal (`val` indexes fixture_table::TYPED)
     KeyTyped,
+    /// a formatter text with a repeated argument, read from a translation file (td_string!) and given to td_format_string!:
+    /// both must select the same options (`idx` indexes fixture_table::DUPS)
+    DupPair,
 }
 
 impl Route {
@@ -48,6 +51,7 @@ impl Route {
             Route::PluralMacro => "plural_macro",
             Route::CtxPlural => "ctx_plural",
             Route::KeyTyped => "key_typed",
+            Route::DupPair => "dup_pair",
         }
     }
     fn from_name(s: &str) -> Option<Route> {
@@ -63,6 +67,7 @@ impl Route {
             "plural_macro" => Route::PluralMacro,
             "ctx_plural" => Route::CtxPlural,
             "key_typed" => Route::KeyTyped,
+            "dup_pair" => Route::DupPair,
             _ => return None,
         })
     }
@@ -83,6 +88,7 @@ impl Op {
         let what = match self.route {
             Route::KeyString | Route::KeyView | Route::KeyDisplay | Route::KeyF64 | Route::KeyTyped => KEYS[self.idx].text.trim().to_string(),
             Route::Site | Route::CtxView => SITES[self.idx].text.to_string(),
+            Route::DupPair => SITES[DUPS[self.idx].site].text.to_string(),
             _ => String::new(),
         };
         json!({"route": self.route.name(), "idx": self.idx, "locale": LOCALES[self.locale], "val": self.val, "formatter": what})
@@ -175,8 +181,10 @@ pub fn generate(rng: &mut Rng, with_faults: bool) -> Plan {
     let cap = if rng.chance(1, 4) { 60 } else { 16 };
     let n_ops = 1 + rng.below(cap);
     let n_vals = fixture::values().len();
-    let key_pool: Vec<usize> = (0..KEYS.len()).filter(|i| enabled_kinds.contains(&KEYS[*i].spec.kind())).collect();
-    let site_pool: Vec<usize> = (0..SITES.len()).filter(|i| enabled_kinds.contains(&SITES[*i].spec.kind())).collect();
+    // (texts with a repeated argument are only used by the pair route: which occurrence counts is not pinned down)
+    let key_pool: Vec<usize> = (0..KEYS.len()).filter(|i| !KEYS[*i].dup && enabled_kinds.contains(&KEYS[*i].spec.kind())).collect();
+    let site_pool: Vec<usize> = (0..SITES.len()).filter(|i| !SITES[*i].dup && enabled_kinds.contains(&SITES[*i].spec.kind())).collect();
+    let dup_pool: Vec<usize> = (0..DUPS.len()).filter(|i| enabled_kinds.contains(&DUPS[*i].first.kind())).collect();
     let mut ops: Vec<Op> = vec![];
     for _ in 0..n_ops {
         // deliberate collisions: re-use the previous op's locale or its key with another locale
@@ -212,6 +220,8 @@ pub fn generate(rng: &mut Rng, with_faults: bool) -> Plan {
                         }
                     } else if r < 7 {
                         Op { route: Route::KeyView, idx: *rng.pick(&key_pool), locale, val: rng.below(n_vals) }
+                    } else if !dup_pool.is_empty() && rng.chance(1, 6) {
+                        Op { route: Route::DupPair, idx: *rng.pick(&dup_pool), locale, val: rng.below(n_vals) }
                     } else {
                         Op { route: if rng.chance(1, 3) { Route::CtxView } else { Route::Site }, idx: *rng.pick(&site_pool), locale, val: rng.below(n_vals) }
                     }
@@ -291,6 +301,14 @@ fn exec_op(op: &Op, vals: &[Val]) -> String {
         Route::KeyF64 => fixture_table::call_key_f64(op.idx, loc, fixture::F64S[op.val % fixture::F64S.len()]).unwrap_or_default(),
         Route::PluralMacro => fixture_table::call_plural_macro(op.idx == 1, loc, COUNTS[op.val % COUNTS.len()]).to_string(),
         Route::Site => fixture_table::call_site(op.idx, loc, &vals[op.val]),
+        Route::DupPair => {
+            // the same formatter text read from a translation file and given to `td_format_string!`
+            let d = &DUPS[op.idx];
+            let from_file = fixture_table::call_key_string(d.key, loc, &vals[op.val]);
+            let from_file = from_file.split_once('|').map(|(_, s)| s.to_string()).unwrap_or(from_file);
+            let from_macro = fixture_table::call_site(d.site, loc, &vals[op.val]);
+            format!("{from_file}\u{1}{from_macro}")
+        }
         Route::CtxView => {
             use leptos::prelude::*;
             use leptos_i18n::context::{init_i18n_context_with_options, I18nContextOptions, UseLocalesOptions};
@@ -371,6 +389,11 @@ pub fn expected(op: &Op, vals: &[Val]) -> Result<String, String> {
         }
         Route::PluralMacro => fixture::reference_plural_category(op.idx == 1, loc, COUNTS[op.val % COUNTS.len()]).map(String::from),
         Route::Site => fixture::reference(SITES[op.idx].spec, loc, &vals[op.val]),
+        // "first occurrence counts" \u{2} "last occurrence counts": the judge accepts either, for both routes alike
+        Route::DupPair => match (fixture::reference(DUPS[op.idx].first, loc, &vals[op.val]), fixture::reference(DUPS[op.idx].last, loc, &vals[op.val])) {
+            (Ok(a), Ok(b)) => Ok(format!("{a}\u{2}{b}")),
+            (Err(e), _) | (_, Err(e)) => Err(e),
+        },
         Route::CtxView => {
             let view = |l: &str| fixture::reference(SITES[op.idx].spec, l, &vals[op.val]).map(|s| if s.is_empty() { " ".to_string() } else { s });
             let plain = fixture::reference(SITES[op.idx].spec, LOCALES[op.locale2()], &vals[op.val]);
@@ -485,6 +508,23 @@ pub fn execute(plan: &Plan, rng: &mut Rng) -> Result<Outcome, String> {
                             "invariant": "fault_not_wrong_data", "signature": format!("{}: a value was returned although the provider failed the construction", op.slot().split('@').next().unwrap_or("")),
                             "detail": format!("thread {tid} op {i} {}: got {got:?}", op.to_json()),
                         }));
+                    } else if op.route == Route::DupPair {
+                        let (first, last) = want.split_once('\u{2}').unwrap_or((&want, &want));
+                        let (from_file, from_macro) = got.split_once('\u{1}').unwrap_or((got, got));
+                        let kind = DUPS[op.idx].first.kind();
+                        if from_file != from_macro {
+                            violations.push(json!({
+                                "invariant": "matches_reference", "signature": format!("{kind}: the same formatter text selects different options in a translation file and in td_format_string!"),
+                                "detail": format!("thread {tid} op {i} {}: file {from_file:?}, macro {from_macro:?}", op.to_json()),
+                            }));
+                        } else if from_file != first && from_file != last {
+                            violations.push(json!({
+                                "invariant": "matches_reference", "signature": format!("{kind} via dup_pair: a repeated argument selects neither of its two values"),
+                                "detail": format!("thread {tid} op {i} {}: got {from_file:?}, first {first:?}, last {last:?}", op.to_json()),
+                            }));
+                        } else if any_fault_fired {
+                            n_after_fault_ok += 1;
+                        }
                     } else if got != &want {
                         let kind = op.spec().map(|s| s.kind()).unwrap_or("plural");
                         violations.push(json!({
